@@ -33,7 +33,7 @@ PROP_STREAMS = {
     "C12": [("e1", 1.0)],
     "C13": [("e3", 0.7), ("e3m", 0.3)],
     "C14": [("e1", 1.0)],
-    "C15": [("e1", 0.8), ("e3", 0.2)],
+    "C15": [("e1", 0.7), ("e3", 0.15), ("e3m", 0.15)],
     "C16": [("e4", 1.0)],
     "C17": [("e4", 1.0)],
     "C20": [("e3m", 1.0)],
@@ -46,6 +46,9 @@ TIER = {
                  "shrink_s": 120},
 }
 RUN_TIMEOUT_S = 120
+# properties whose code iterates over sets of strings: the first N run indices are executed under EVERY
+# hash-seed class and the final world digests are compared across classes by the parent
+CROSS_HASH = {"C17": 96}
 MAX_SHRINK_JOBS = 12
 
 
@@ -81,11 +84,11 @@ def _worker_run(args):
         res = eng.execute(trace)
         out = res.to_json()
         out.update(engine=engine_name, index=index, run_seed=rs, wall=time.perf_counter() - t0,
-                   trace_digest=tdig)
+                   trace_digest=tdig, hashseed=trace["hashseed"])
         mine = [v for v in out["violations"] if v["prop"] == prop]
         out["others"] = sorted({v["sig"] for v in out["violations"] if v["prop"] != prop})
         out["violations"] = mine
-        if mine or index < 3:
+        if mine or index < 3 or index < CROSS_HASH.get(prop, 0):
             out["trace"] = trace
         return out
     except Exception:
@@ -107,7 +110,7 @@ def child_main(a):
     for en, share in PROP_STREAMS[a.prop]:
         n = int(cfg["runs"][en] * share * a.scale)
         for i in range(n):
-            if i % a.K == a.hash:
+            if i % a.K == a.hash or i < CROSS_HASH.get(a.prop, 0):
                 jobs.append((en, a.prop, a.tier, a.seed, i))
     # interleave engines so that a budget cut hits all streams evenly
     jobs.sort(key=lambda j: (j[4], j[0]))
@@ -212,6 +215,15 @@ def replay_main(path, quiet=False):
     with open(path) as f:
         rp = json.load(f)
     trace = rp["trace"]
+    if rp.get("cross_hash"):
+        a_, b_ = rp["cross_hash"][:2]
+        fa, fb = _final_state_of(path, a_), _final_state_of(path, b_)
+        print("  final state under PYTHONHASHSEED=%s: %s\n  final state under PYTHONHASHSEED=%s: %s" % (a_, fa, b_, fb))
+        if fa != fb:
+            print("VIOLATION property=%s replay=%s" % (rp["property"], path))
+            return 1
+        print("replay did not reproduce %s" % rp["signature"])
+        return 0
     want_hs = str(trace.get("hashseed", 0))
     if os.environ.get("PYTHONHASHSEED") != want_hs:
         env = dict(os.environ, PYTHONHASHSEED=want_hs)
@@ -282,7 +294,33 @@ def check_main(a):
             if rc != 0 or not ok_done:
                 err = open(os.path.join(scratch, "child%d.err" % h)).read()[-2000:]
                 herrs.append("child %d rc=%s done=%s stderr: %s" % (h, rc, ok_done, err))
-        results.sort(key=lambda r: (r["engine"], r["index"]))
+        results.sort(key=lambda r: (r["engine"], r["index"], r.get("hashseed", 0)))
+        # ---- cross-hash comparison: the same trace must end in the same world under every hash seed ----
+        groups = {}
+        for r in results:
+            if r["index"] < CROSS_HASH.get(prop, 0) and r.get("final_state"):
+                groups.setdefault((r["engine"], r["index"]), []).append(r)
+        cross_compared = 0
+        for key, rs in sorted(groups.items()):
+            if len(rs) < 2:
+                continue
+            cross_compared += 1
+            if len({r["final_state"] for r in rs}) > 1:
+                a_, b_ = rs[0], [r for r in rs if r["final_state"] != rs[0]["final_state"]][0]
+                a_["violations"].append({"prop": prop, "sig": "%s/hash-seed-dependent-final-state" % prop,
+                                         "detail": "PYTHONHASHSEED %s vs %s" % (a_["hashseed"], b_["hashseed"]), "op": -1})
+                a_["cross_hash"] = [a_["hashseed"], b_["hashseed"]]
+        # only one copy of a cross-hash run counts as an evaluation
+        seen_idx = set()
+        uniq = []
+        for r in results:
+            k_ = (r["engine"], r["index"])
+            if k_ in seen_idx and not r["violations"]:
+                continue
+            seen_idx.add(k_)
+            uniq.append(r)
+        results = uniq
+        CROSS_COMPARED[prop] = cross_compared
 
         # ---- violations ------------------------------------------------------------------
         known = core.known_findings(prop)
@@ -357,7 +395,44 @@ def check_main(a):
     return status
 
 
+def _final_state_of(path, hs):
+    env = dict(os.environ, PYTHONHASHSEED=str(hs))
+    cp = subprocess.run([PY, os.path.abspath(__file__), "--final-state", path], env=env, capture_output=True, text=True,
+                        timeout=RUN_TIMEOUT_S * 2)
+    for line in cp.stdout.splitlines():
+        if line.startswith("FINAL-STATE "):
+            return line.split()[1]
+    return None
+
+
+def final_state_main(path):
+    _setup_runtime()
+    rp = json.load(open(path))
+    from vsim import warmup
+    warmup.warm()
+    eng = _engine(rp["trace"]["engine"])
+    res = eng.execute(rp["trace"])
+    print("FINAL-STATE %s" % res.final_state)
+    return 0
+
+
+def _write_cross_hash_replay(prop, sig, r, seed):
+    rdir = os.path.join(VERIF, "replays")
+    os.makedirs(rdir, exist_ok=True)
+    path = os.path.join(rdir, "%s-crosshash-s%d-r%d.json" % (prop, seed, r["index"]))
+    json.dump({"property": prop, "signature": sig, "verif_seed": seed, "engine": r["engine"], "run_index": r["index"],
+               "run_seed": r["run_seed"], "cross_hash": r.get("cross_hash", [0, 1]), "trace": r["trace"]},
+              open(path, "w"), indent=1, sort_keys=True)
+    a_, b_ = (r.get("cross_hash") or [0, 1])[:2]
+    fa, fb = _final_state_of(path, a_), _final_state_of(path, b_)
+    if fa is None or fb is None or fa == fb:
+        return None
+    return path
+
+
 def _shrink_and_write(prop, sig, r, scratch, shrink_s, seed, k=0):
+    if sig.endswith("/hash-seed-dependent-final-state"):
+        return _write_cross_hash_replay(prop, sig, r, seed)
     trace = r["trace"]
     hs = str(trace.get("hashseed", 0))
     env = dict(os.environ, PYTHONHASHSEED=hs)
@@ -399,6 +474,9 @@ def _shrink_and_write(prop, sig, r, scratch, shrink_s, seed, k=0):
     return path
 
 
+CROSS_COMPARED = {}
+
+
 def _write_evidence(prop, tier, seed, results, new_violations, known_hit, wall, capped, herrs, K):
     from vsim import core
     sigs = {}
@@ -437,6 +515,7 @@ def _write_evidence(prop, tier, seed, results, new_violations, known_hit, wall, 
         "property_id": prop, "tier": tier, "seed": seed, "level": "exploration",
         "coverage": {
             "evaluations": len(results),
+            "cross_hash_seed_comparisons": CROSS_COMPARED.get(prop, 0),
             "distinct_nontrivial": len(sigs),
             "rule": "One evaluation = one seeded simulated session (trace generated from run_seed = H(VERIF_SEED, engine, "
                     "property, index), then executed without further randomness). Non-trivial = executed at least one "
@@ -483,6 +562,7 @@ def main():
     ap.add_argument("--quiet", action="store_true")
     ap.add_argument("--child")
     ap.add_argument("--shrink")
+    ap.add_argument("--final-state", dest="final_state")
     ap.add_argument("--hash", type=int, default=0)
     ap.add_argument("--K", type=int, default=2)
     ap.add_argument("--workers", type=int, default=0)
@@ -492,6 +572,8 @@ def main():
     a = ap.parse_args()
     if a.tier not in TIER:
         a.tier = "quick"
+    if a.final_state:
+        return final_state_main(a.final_state)
     if a.replay:
         return replay_main(a.replay, a.quiet)
     if a.child:
